@@ -360,8 +360,11 @@ fn panic_msg(e: Box<dyn std::any::Any + Send>) -> String {
     m.replace(['\t', '\n'], " ").chars().take(120).collect()
 }
 
-/// Class of an error returned for `formula`, found by replaying the public stages of the
-/// pipeline; `Other` when the message is not the one the stages produce.
+/// Class of an error returned for `formulae`: the first stage of the public pipeline that
+/// rejects the input when replayed (lexing, parsing, scoping/propositions, spare-variable
+/// support, context labels).  The wording of the message is only used to tell the three
+/// scoping/proposition causes apart (class `Prep` when it is not recognised), so a change of
+/// wording alone is not reported as a different behaviour.  `Other` when no stage rejects.
 fn classify_error(
     formulae: &[String],
     ext: bool,
@@ -377,18 +380,15 @@ fn classify_error(
             try_tokenize_formula(f.clone())
         };
         let toks = match toks {
-            Err(m) => return if m == msg { "Lex".into() } else { format!("Other:{m}") },
+            Err(_) => return "Lex".into(),
             Ok(t) => t,
         };
         let tree = match parse_hctl_tokens(&toks) {
-            Err(m) => return if m == msg { "Parse".into() } else { format!("Other:{m}") },
+            Err(_) => return "Parse".into(),
             Ok(t) => t,
         };
         let tree = match validate_props_and_rename_vars(tree, ctx) {
             Err(m) => {
-                if m != msg {
-                    return format!("Other:{m}");
-                }
                 return if m.contains("quantified several times") {
                     "Requantified".into()
                 } else if m.contains("is free") {
@@ -405,13 +405,8 @@ fn classify_error(
             if !check_hctl_var_support(g, tree.clone()) {
                 return "VarSupport".into();
             }
-            if ext {
-                if let Err(m) = validate_and_divide_wild_cards(&tree, context_sets) {
-                    // which of several missing labels is named depends on hash-set iteration order
-                    let same_kind = m == msg
-                        || (m.ends_with("lacks evaluation context.") && msg.ends_with("lacks evaluation context."));
-                    return if same_kind { "MissingContext".into() } else { format!("Other:{m}") };
-                }
+            if ext && validate_and_divide_wild_cards(&tree, context_sets).is_err() {
+                return "MissingContext".into();
             }
         }
     }
